@@ -78,6 +78,16 @@ def cases(shard, nshards, seed, tier):
         for t, trans in enumerate([[0.0, 0.0, -400.0], [1200.0, -300.0, 0.0], [-350.0, 2000.0, -150.0]] if tier == "thorough" else [[900.0, -350.0, -400.0], [-300.0, 1500.0, -120.0]]):
             if mine():
                 yield {"family": "T4-format-translated", "file": fn, "base_ops": [{"op": "axisperm", "k": 0, "trans": trans}], "twin": {"kind": "T4"}}
+    # insertion codes renamed away: 17, 17A, 17B ... against 1, 2, 3 ... (both are order-preserving names of the same residues)
+    for fn in [f for f in files if f.endswith(("1ehz-assembly-1.cif", "1A1T_1_B.cif", "4qln.cif", "1E7K_1_C.cif", "488d.pdb", "1gid.cif.gz"))]:
+        for t, base in enumerate(([{"op": "icodes", "seed": "c05s1", "frac": 0.9, "runs": [2, 2, 3]}], [{"op": "icodes", "seed": "c05s2", "frac": 0.6}])):
+            if fn.endswith("488d.pdb") and t:
+                base = []  # 488d carries insertion codes of its own
+            if mine():
+                yield {"family": "T3-icodes-vs-sequential", "file": fn, "base_ops": base, "twin": {"kind": "T3", "prefix": "s", "mode": "sequential", "seed": f"{fn}:seq{t}", "gaps": False}}
+    # the corpus itself holds one structure in both formats: the deposited files, read with default arguments
+    if mine():
+        yield {"family": "corpus-format-pair", "file": "tests/4qln.cif", "other": "tests/4qln.pdb", "base_ops": [], "twin": {"kind": "pair"}}
     # NMR ensembles: the other models (same identifiers, other geometry) are annotated first
     for fn in [f for f in gen3d.corpus_files() if f.endswith(("2HY9.cif", "6RS3.cif"))]:
         for tw in ({"kind": "T3", "prefix": "a", "mode": "shift", "seed": f"{fn}:ens3", "gaps": False}, {"kind": "T4"},
@@ -170,6 +180,14 @@ def _relabel_twin(structure, tw):
         fn = lambda c, n: 3 * n + shift[c]
     else:
         fn = lambda c, n: n + shift[c]
+    # "sequential": every chain renumbered 1, 2, 3, ... in file order WITHOUT insertion codes (order-preserving
+    # whenever the file lists each chain in ascending order); residues that shared a number (20, 20A) no longer do
+    seqno = {}
+    if tw["mode"] == "sequential":
+        counter = {}
+        for ri, r in enumerate(structure.residues):
+            counter[r.chain] = counter.get(r.chain, 0) + 1
+            seqno[ri] = counter[r.chain]
     keymap = {}
     # "single": one-character chain names (so that the table still fits PDB), order-preserving
     single = {c: "klmnopqrstuvwxyz"[k] for k, c in enumerate(sorted(chains))} if tw.get("single") and len(chains) <= 16 else None
@@ -179,8 +197,12 @@ def _relabel_twin(structure, tw):
         lab = r.label
         auth = r.auth
         c = r.chain
-        nl = ResidueLabel(cn(lab.chain) if lab.chain in chains else pre + lab.chain, fn(c, lab.number), lab.name) if lab is not None else None
-        na = ResidueAuth(cn(auth.chain) if auth.chain in chains else pre + auth.chain, fn(c, auth.number), auth.icode, auth.name) if auth is not None else None
+        if seqno:
+            nl = ResidueLabel(cn(lab.chain) if lab.chain in chains else pre + lab.chain, seqno[ri], lab.name) if lab is not None else None
+            na = ResidueAuth(cn(auth.chain) if auth.chain in chains else pre + auth.chain, seqno[ri], None, auth.name) if auth is not None else None
+        else:
+            nl = ResidueLabel(cn(lab.chain) if lab.chain in chains else pre + lab.chain, fn(c, lab.number), lab.name) if lab is not None else None
+            na = ResidueAuth(cn(auth.chain) if auth.chain in chains else pre + auth.chain, fn(c, auth.number), auth.icode, auth.name) if auth is not None else None
         old = ((lab.chain, lab.number, lab.name) if lab is not None else None, (auth.chain, auth.number, auth.icode, auth.name) if auth is not None else None)
         new = ((nl.chain, nl.number, nl.name) if nl is not None else None, (na.chain, na.number, na.icode, na.name) if na is not None else None)
         keymap[old] = new
@@ -216,9 +238,25 @@ def run_case(case, rec):
         base = gen3d.apply_ops(base, case["base_ops"])
     keymap = None
     chainmap = None
-    if tw["kind"] in ("T1", "T2"):
+    if tw["kind"] == "pair":
+        ok, why = _same_atoms(case["file"], case["other"])
+        if not ok:
+            rec.undecided("twin.interactions-equal", "corpus pair does not hold the same atoms: " + why)
+            return
+        twin = gen3d.load(case["other"])
+    elif tw["kind"] in ("T1", "T2"):
         twin = gen3d.apply_ops(base, tw["ops"])
     elif tw["kind"] == "T3":
+        if tw["mode"] == "sequential":
+            # 1, 2, 3 ... in file order is an ORDER-PRESERVING renaming only if every chain is listed in
+            # ascending (number, insertion code) order (488d numbers strand A downwards: not in the domain)
+            last = {}
+            for r in base.residues:
+                k = (r.auth.number, r.auth.icode or " ") if r.auth is not None else (r.label.number, " ")
+                if r.chain in last and k <= last[r.chain]:
+                    rec.skip("twin.interactions-equal", "sequential renaming is not order-preserving for this file")
+                    return
+                last[r.chain] = k
         twin, keymap, chainmap = _relabel_twin(base, tw)
     else:
         from vmon import emit
@@ -244,7 +282,7 @@ def run_case(case, rec):
         return
     rec.mark_nontrivial(len(ra["inter"]) > 0)
     ia = ra["inter"]
-    if tw["kind"] == "T4":
+    if tw["kind"] in ("T4", "pair"):
         # the PDB reader has no label identity: compare on author identity
         strip = lambda lst: [(x[0], (None, x[1][1]), (None, x[2][1])) + tuple(x[3:]) for x in lst]
         ia = strip(ia)
@@ -275,6 +313,25 @@ def run_case(case, rec):
 
     rec.check("twin.dot-bracket-equal", ren(ra["dbn"]) == rb["dbn"], lambda: det({"a": ra["dbn"][:300], "b": rb["dbn"][:300]}))
     rec.check("twin.extended-equal", ren(ra["ext"]) == rb["ext"], lambda: det({"a": ra["ext"][:300], "b": rb["ext"][:300]}))
+
+
+def _same_atoms(cif, pdb):
+    """Do the two deposited files hold the same atoms (independent readers, author identity, 3 decimals)?"""
+    from vmon.props import c08
+
+    out = []
+    for fn in (cif, pdb):
+        path = os.path.join(core.REPO, fn)
+        try:
+            rows, _ = c08._raw_rows(path, open(path).read())
+        except Exception as e:
+            return False, f"{fn}: {type(e).__name__}"
+        first = rows[0]["model"] if rows else None
+        out.append(sorted((r["chain"], r["resseq"], r["icode"], r["resname"], r["name"], round(r["x"], 3), round(r["y"], 3), round(r["z"], 3)) for r in rows if r["model"] == first))
+    if out[0] != out[1]:
+        d = next((a, b) for a, b in zip(out[0] + [None], out[1] + [None]) if a != b)
+        return False, str(d)[:200]
+    return True, ""
 
 
 def _mech(sa, sb):
